@@ -62,6 +62,10 @@ ASSUMPTIONS = [
     "in which the changed array is assigned again (augmented assignment, self-assignment, the constructor's array) are in the quantifier",
     "histories in which a shape attribute is set after construction are judged by the oracle only (the model has no setters); a failure there has a key "
     "C06/*/stale-after-setter/<Class.attr>",
+    "histories on several live networks (case kind twin) use rebuilding operations only (rtree=True) and query with points, rectangles and "
+    "polygons (circle queries are the known r/2 finding and stay with the single-network cases); that the copies hand out fresh objects is "
+    "the hypothesis Function.Injective f of C06_world_*; a copy that shares a container with its source shows as a disagreement with "
+    "CR.Index.wrun and as an oracle failure C06/twin/*",
     "index states left stale on request (add_lanelet / remove_lanelet with rtree=False and no later rebuild) are modelled and covered by the "
     "theorems but not queried: the property speaks about networks built in a supported way",
 ]
@@ -2123,6 +2127,8 @@ def shrink(case, key):
         case = dict(case, mid=False) if _fails(dict(case, mid=False), key) else case
         if case["hist"]:
             case = dict(case, hist=shrink_list(case["hist"], lambda x: _fails(dict(case, hist=x), key), 60))
+        if len(case["lanelets"]) > 1:
+            case = dict(case, lanelets=shrink_list(case["lanelets"], lambda x: _fails(dict(case, lanelets=x), key), 40))
     elif case["kind"] == "obst":
         if len(case["lanelets"]) > 1:
             case = dict(case, lanelets=shrink_list(case["lanelets"], lambda x: _fails(dict(case, lanelets=x), key), 40))
